@@ -12,6 +12,7 @@ package main
 // ones, so "unsat" from it is a proof; "sat" from it is never believed.
 
 import (
+	"os"
 	"regexp"
 	"fmt"
 	"go/types"
@@ -26,6 +27,7 @@ type hyp struct {
 	env   *Env
 	reach string
 	done  map[string]bool
+	heaps map[string]map[string]bool // quantified variable -> element heaps it indexes directly (nil: unknown)
 }
 
 func hasQuant(s string) bool {
@@ -59,6 +61,7 @@ func (g *Gen) registerHyps(e Expr, pre []Expr, env *Env, reach string) {
 	case *EQuant:
 		if x.Forall && allIntVars(x.Vars) {
 			h := &hyp{pre: pre, qv: x.Vars[0], qvs: x.Vars, body: x.Body, env: env, reach: reach, done: map[string]bool{}}
+			h.heaps = g.varHeaps(env, append(append([]Expr{}, pre...), x.Body), x.Vars)
 			g.hyps = append(g.hyps, h)
 			if len(x.Vars) == 1 {
 				n := len(g.seenIdx)
@@ -67,6 +70,9 @@ func (g *Gen) registerHyps(e Expr, pre []Expr, env *Env, reach string) {
 					lo = n - 16
 				}
 				for _, t := range g.seenIdx[lo:] {
+					if !relevant(h.heaps[x.Vars[0].Name], g.seenKey[t]) {
+						continue
+					}
 					if f := g.instStr(h, t); f != "" {
 						g.addFact(f)
 					}
@@ -85,6 +91,60 @@ func (g *Gen) noteSliceLo(lo string) {
 		}
 	}
 	g.sliceLos = append(g.sliceLos, lo)
+}
+
+// goalParts splits a clause into independent goals: top-level conjuncts, through implications
+// (A ==> B && C gives A ==> B and A ==> C) and through spec functions whose body is a conjunction.
+func (g *Gen) goalParts(e Expr) []Expr {
+	var out []Expr
+	var walk func(e Expr, pre []Expr)
+	walk = func(e Expr, pre []Expr) {
+		e2 := g.inlineSpec(e, 0)
+		if b, ok := e2.(*EBinary); ok {
+			switch b.Op {
+			case "&&":
+				walk(b.X, pre)
+				walk(b.Y, pre)
+				return
+			case "==>":
+				walk(b.Y, append(append([]Expr{}, pre...), b.X))
+				return
+			}
+		}
+		// keep the original (un-inlined) expression for leaves
+		if _, isConj := e2.(*EBinary); !isConj {
+			e2 = e
+		}
+		for i := len(pre) - 1; i >= 0; i-- {
+			e2 = &EBinary{"==>", pre[i], e2}
+		}
+		out = append(out, e2)
+	}
+	walk(e, nil)
+	if len(out) > 12 {
+		return []Expr{e}
+	}
+	return out
+}
+
+// partClauses turns a clause into one clause per goal part (labels lab.1, lab.2, ...).
+func (g *Gen) partClauses(cl *Clause) []*Clause {
+	parts := g.goalParts(cl.E)
+	if len(parts) <= 1 {
+		return []*Clause{cl}
+	}
+	var out []*Clause
+	for k, pe := range parts {
+		c := *cl
+		c.E = pe
+		c.Label = fmt.Sprintf("%s.%d", cl.Label, k+1)
+		if cl.Label == "" {
+			c.Label = fmt.Sprintf("part%d", k+1)
+		}
+		c.Src = cl.Src + "  [part " + fmt.Sprint(k+1) + ": " + pe.String() + "]"
+		out = append(out, &c)
+	}
+	return out
 }
 
 func allIntVars(vs []QVar) bool {
@@ -222,23 +282,206 @@ func (g *Gen) instMulti(h *hyp, terms []string) (out string) {
 	return implies(h.reach, implies(and(pres...), body))
 }
 
-func (g *Gen) seeIndex(term string) {
+// seeIndex: the code indexes an array of element heap `key` ("" = unknown) with term.
+func (g *Gen) seeIndex(term string, key string) {
 	if g.seenSet == nil {
 		g.seenSet = map[string]bool{}
+		g.seenKey = map[string]map[string]bool{}
 	}
-	if g.seenSet[term] || len(term) > 200 {
+	if len(term) > 200 {
 		return
 	}
-	g.seenSet[term] = true
-	g.seenIdx = append(g.seenIdx, term)
+	if g.seenKey[term] == nil {
+		g.seenKey[term] = map[string]bool{}
+	}
+	newKey := !g.seenKey[term][key]
+	g.seenKey[term][key] = true
+	if g.seenSet[term] {
+		// most recently used last
+		for i, t := range g.seenIdx {
+			if t == term {
+				g.seenIdx = append(append(g.seenIdx[:i:i], g.seenIdx[i+1:]...), term)
+				break
+			}
+		}
+		if !newKey {
+			return
+		}
+	} else {
+		g.seenSet[term] = true
+		g.seenIdx = append(g.seenIdx, term)
+	}
 	for _, h := range g.hyps {
 		if len(h.qvs) > 1 {
+			continue
+		}
+		if os.Getenv("GOVC_NOFILTER") != "see" && !relevant(h.heaps[h.qv.Name], map[string]bool{key: true}) {
 			continue
 		}
 		if f := g.instStr(h, term); f != "" {
 			g.addFact(f)
 		}
 	}
+}
+
+// relevant: may a term that indexes the heaps `have` stand for a variable that indexes `want`?
+// Unknown on either side (nil / empty / the "" key) counts as relevant.
+var noFilter = os.Getenv("GOVC_NOFILTER") == "1"
+
+func relevant(want, have map[string]bool) bool {
+	if noFilter {
+		return true
+	}
+	if len(want) == 0 || len(have) == 0 || have[""] || want[""] {
+		return true
+	}
+	for k := range have {
+		if want[k] {
+			return true
+		}
+	}
+	return false
+}
+
+// varHeaps finds, for each quantified variable, the element heaps of the slices / strings it indexes
+// directly (x[v], x[v+c], x[c+v]); a variable used in any other way maps to {"": true}.
+func (g *Gen) varHeaps(env *Env, exprs []Expr, vars []QVar) (out map[string]map[string]bool) {
+	out = map[string]map[string]bool{}
+	isVar := map[string]bool{}
+	for _, v := range vars {
+		isVar[v.Name] = true
+		out[v.Name] = map[string]bool{}
+	}
+	defer func() {
+		if r := recover(); r != nil {
+			if _, ok := r.(specError); ok {
+				for _, v := range vars {
+					out[v.Name] = map[string]bool{"": true}
+				}
+				return
+			}
+			panic(r)
+		}
+	}()
+	saved := g.sideFact
+	g.sideFact = nil
+	defer func() { g.sideFact = saved }()
+	ne := env.child()
+	for _, v := range vars {
+		ne.vars[v.Name] = &SV{S: "qm!" + sanitize(v.Name), T: types.Typ[types.Int]}
+	}
+	mentions := func(e Expr) []string {
+		var names []string
+		var w func(e Expr)
+		w = func(e Expr) {
+			switch x := e.(type) {
+			case *EIdent:
+				if isVar[x.Name] {
+					names = append(names, x.Name)
+				}
+			case *EUnary:
+				w(x.X)
+			case *EBinary:
+				w(x.X)
+				w(x.Y)
+			case *ECall:
+				for _, a := range x.Args {
+					w(a)
+				}
+			case *ESel:
+				w(x.X)
+			case *EIndex:
+				w(x.X)
+				w(x.I)
+			case *ESlice:
+				w(x.X)
+				if x.Lo != nil {
+					w(x.Lo)
+				}
+				if x.Hi != nil {
+					w(x.Hi)
+				}
+			case *EQuant:
+				w(x.Body)
+			}
+		}
+		w(e)
+		return names
+	}
+	// simpleIndex: v, v + c, c + v, v - c with c free of quantified variables
+	simpleIndex := func(e Expr) string {
+		switch x := e.(type) {
+		case *EIdent:
+			if isVar[x.Name] {
+				return x.Name
+			}
+		case *EBinary:
+			if x.Op == "+" || x.Op == "-" {
+				if id, ok := x.X.(*EIdent); ok && isVar[id.Name] && len(mentions(x.Y)) == 0 {
+					return id.Name
+				}
+				if id, ok := x.Y.(*EIdent); ok && x.Op == "+" && isVar[id.Name] && len(mentions(x.X)) == 0 {
+					return id.Name
+				}
+			}
+		}
+		return ""
+	}
+	var walk func(e Expr, bound map[string]bool)
+	walk = func(e Expr, bound map[string]bool) {
+		switch x := e.(type) {
+		case *EIdent:
+			if isVar[x.Name] && !bound[x.Name] {
+				// compared with bounds etc.: harmless; only non-index *uses inside terms* matter, which
+				// the cases below catch; a bare identifier in a comparison says nothing about heaps
+			}
+		case *EUnary:
+			walk(x.X, bound)
+		case *EBinary:
+			walk(x.X, bound)
+			walk(x.Y, bound)
+		case *ECall:
+			for _, a := range x.Args {
+				// a variable passed to a function (spec call, builtin): unknown use
+				for _, n := range mentions(a) {
+					if _, direct := a.(*EIdent); direct {
+						out[n][""] = true
+					}
+				}
+				walk(a, bound)
+			}
+		case *ESel:
+			walk(x.X, bound)
+		case *EIndex:
+			if v := simpleIndex(x.I); v != "" {
+				xv := ne.eval(x.X)
+				switch u := xv.T.Underlying().(type) {
+				case *types.Slice:
+					k, _ := g.elemHeap(g.sortOf(u.Elem()))
+					out[v][k] = true
+				case *types.Basic:
+					out[v]["str"] = true
+				default:
+					out[v][""] = true
+				}
+			} else {
+				for _, n := range mentions(x.I) {
+					out[n][""] = true
+				}
+			}
+			walk(x.X, bound)
+		case *ESlice:
+			for _, n := range mentions(e) {
+				out[n][""] = true
+			}
+		case *EQuant:
+			walk(x.Body, bound)
+		}
+	}
+	for _, e := range exprs {
+		walk(e, map[string]bool{})
+	}
+	return out
 }
 
 // lightGoal prepares the quantifier-free variant of an obligation whose clause is a conjunction of
@@ -267,9 +510,12 @@ func (g *Gen) lightGoal(o *Obligation, e Expr, env *Env, cond string) {
 				}
 			}
 		}
-		defer func() { g.sideFact = savedSide }()
+		savedSeen := g.sideSeen
+		g.sideSeen = map[string]bool{} // facts for this query only: no sharing of the "already stated" set
+		defer func() { g.sideFact = savedSide; g.sideSeen = savedSeen }()
 	}
 	var sks []string
+	skHeaps := map[string]map[string]bool{} // candidate term -> element heaps it indexes
 	nq := 0
 	var conj func(e Expr, pre []Expr, ne *Env) string
 	conj = func(e Expr, pre []Expr, ne *Env) string {
@@ -286,10 +532,12 @@ func (g *Gen) lightGoal(o *Obligation, e Expr, env *Env, cond string) {
 			if x.Forall && allIntVars(x.Vars) {
 				nq++
 				ce := ne.child()
+				vh := g.varHeaps(ne, append(append([]Expr{}, pre...), x.Body), x.Vars)
 				for _, v := range x.Vars {
 					sk := g.freshConst("sk."+sanitize(v.Name), "Int")
 					ce.vars[v.Name] = &SV{S: sk, T: types.Typ[types.Int]}
 					sks = append(sks, sk)
+					skHeaps[sk] = vh[v.Name]
 				}
 				return conj(x.Body, pre, ce)
 			}
@@ -313,7 +561,7 @@ func (g *Gen) lightGoal(o *Obligation, e Expr, env *Env, cond string) {
 		return implies(and(pres...), goal)
 	}
 	body := conj(e, nil, env.child())
-	if nq == 0 || len(sks) > 8 {
+	if nq == 0 || len(sks) > 12 {
 		return // nothing to skolemise (the full query is quantifier-free in the goal) or too many parts
 	}
 	o.LightGoal = implies(cond, body)
@@ -328,12 +576,27 @@ func (g *Gen) lightGoal(o *Obligation, e Expr, env *Env, cond string) {
 		cands = append(cands, sk)
 		if len(sks) == 1 {
 			cands = append(cands, "(- "+sk+" 1)", "(+ "+sk+" 1)")
+			skHeaps["(- "+sk+" 1)"], skHeaps["(+ "+sk+" 1)"] = skHeaps[sk], skHeaps[sk]
 		}
 		for _, lo := range los {
-			shifted = append(shifted, "(+ "+sk+" "+lo+")")
+			t := "(+ " + sk + " " + lo + ")"
+			shifted = append(shifted, t)
+			skHeaps[t] = skHeaps[sk]
 		}
 	}
 	cands = append(cands, shifted...)
+	if os.Getenv("GOVC_DEBUG_INST") != "" && strings.Contains(o.Name, os.Getenv("GOVC_DEBUG_INST")) {
+		fmt.Fprintf(os.Stderr, "INST %s: skolems %v heaps %v\n", o.Name, sks, skHeaps)
+		for _, h := range g.hyps {
+			fmt.Fprintf(os.Stderr, "  hyp vars=%v heaps=%v body=%s\n", h.qvs, h.heaps, h.body.String())
+		}
+	}
+	heapsOf := func(t string) map[string]bool {
+		if h, ok := skHeaps[t]; ok {
+			return h
+		}
+		return g.seenKey[t]
+	}
 	n := len(g.seenIdx)
 	lo := 0
 	if n > 6 {
@@ -343,6 +606,9 @@ func (g *Gen) lightGoal(o *Obligation, e Expr, env *Env, cond string) {
 	for _, h := range g.hyps {
 		if len(h.qvs) <= 1 {
 			for _, t := range cands {
+				if !relevant(h.heaps[h.qv.Name], heapsOf(t)) {
+					continue
+				}
 				saved := h.done[t]
 				h.done[t] = false
 				if f := g.instStr(h, t); f != "" {
@@ -375,6 +641,9 @@ func (g *Gen) lightGoal(o *Obligation, e Expr, env *Env, cond string) {
 				}
 			}
 			for _, p := range pairs {
+				if !relevant(h.heaps[h.qvs[0].Name], heapsOf(p[0])) || !relevant(h.heaps[h.qvs[1].Name], heapsOf(p[1])) {
+					continue
+				}
 				if f := g.instMulti(h, []string{p[0], p[1]}); f != "" {
 					o.LightExtra = append(o.LightExtra, f)
 				}
@@ -454,7 +723,7 @@ func (g *Gen) presInstances(o *Obligation) {
 	}
 	seen := map[string]bool{}
 	texts := append([]string{o.LightGoal}, o.LightExtra...)
-	for round := 0; round < 3 && len(texts) > 0; round++ {
+	for round := 0; round < 10 && len(texts) > 0; round++ {
 		// reference terms read from any version of a heap, per heap key
 		refs := map[string][]string{}
 		elems := map[string][][2]string{} // (ref, index) pairs of nested selects, per heap key
